@@ -19,6 +19,9 @@ PATTERNS  (1) every `pdl.pattern` op of the .mlir corpus (chunks that parse), ta
           (3) the multi-result family (`multi_result_patterns` x `multi_result_payloads`): the root consumes
               `pdl.result k of %d`, k in {0, 1}, of a two-result definition (result 0, result 1, both in either order,
               or next to an unconstrained operand); payloads: one two-result test.op + 1-2 consumers, all wirings.
+          (4) the shared-attribute family (`shared_attr_patterns` x `shared_attr_payloads`): ONE pdl.attribute value
+              (constant 0 / 1, unconstrained, typed-only) used in two attribute slots (two names of the root op; root
+              op + operand-defining op); payloads: all combinations of slot values {0:i32, 1:i32, 1:i64, missing}.
 PAYLOADS  func.func over two i32 block arguments with <= N ops over {arith.constant 0/1/2, addi, muli, subi,
           test.op (0-2 operands, 0/1 result)}, ALL operand wirings over block arguments and earlier results,
           every value used (otherwise-unused results are returned), modulo swapping the two block arguments
@@ -478,6 +481,57 @@ def multi_result_patterns() -> list[str]:
     return out
 
 
+ATTR_SLOT_VALUES = ("0 : i32", "1 : i32", "1 : i64", None)    # {v, other, same number other type, missing}
+
+
+def shared_attr_payloads() -> list[str]:
+    """payload functions for the shared-attribute family, every combination of slot values:
+    (i) one `"test.op"() {lo = X, hi = Y} -> i32`;  (ii) `%d = "test.op"() {lo = X}` consumed (or not: the consumer
+    takes a block argument instead) by `"test.op"(%d) {hi = Y} -> i32`."""
+    def ad(**kw: str | None) -> str:
+        items = [f"{k} = {v}" for k, v in kw.items() if v is not None]
+        return (" {" + ", ".join(items) + "}") if items else ""
+
+    out = []
+    for x in ATTR_SLOT_VALUES:
+        for y in ATTR_SLOT_VALUES:
+            n = len(out)
+            out.append(f'func.func @a{n}(%x0: i32) -> i32 {{\n  %0 = "test.op"(){ad(lo=x, hi=y)} : () -> i32\n  func.return %0 : i32\n}}\n')
+            for src in ("%0", "%x0"):
+                n = len(out)
+                out.append(f'func.func @a{n}(%x0: i32) -> (i32, i32) {{\n  %0 = "test.op"(){ad(lo=x)} : () -> i32\n'
+                           f'  %1 = "test.op"({src}){ad(hi=y)} : (i32) -> i32\n  func.return %0, %1 : i32, i32\n}}\n')
+    return out
+
+
+def shared_attr_patterns() -> list[str]:
+    """ONE `pdl.attribute` SSA value (constant 0 / constant 1 / unconstrained / typed-only) used in TWO attribute
+    slots: two names of the root op, or the root op and the op defining its operand.  Rewrites: replace the root by
+    a new test.pureop that carries the bound attribute, or (second layout) by the root's operand."""
+    kinds = {"const0": ["%a = pdl.attribute = 0 : i32"], "const1": ["%a = pdl.attribute = 1 : i32"],
+             "any": ["%a = pdl.attribute"], "typed": ["%ty = pdl.type : i32", "%a = pdl.attribute : %ty"]}
+    out = []
+    for adef in kinds.values():
+        for layout in ("same-op", "root+def"):
+            ls = list(adef) + ["%t = pdl.type"]
+            if layout == "same-op":
+                ls.append('%root = pdl.operation "test.op" {"lo" = %a, "hi" = %a} -> (%t : !pdl.type)')
+                rewrites = ["new"]
+            else:
+                ls += ['%d = pdl.operation "test.op" {"lo" = %a} -> (%t : !pdl.type)', "%r = pdl.result 0 of %d", "%t2 = pdl.type",
+                       '%root = pdl.operation "test.op" (%r : !pdl.value) {"hi" = %a} -> (%t2 : !pdl.type)']
+                rewrites = ["new", "operand"]
+            rt = "%t" if layout == "same-op" else "%t2"
+            for rw in rewrites:
+                if rw == "new":
+                    body = [f'%n = pdl.operation "test.pureop" {{"seen" = %a}} -> ({rt} : !pdl.type)', "pdl.replace %root with %n"]
+                else:
+                    body = ["pdl.replace %root with (%r : !pdl.value)"]
+                out.append("pdl.pattern : benefit(1) {\n" + "".join("  " + ln + "\n" for ln in ls) + "  pdl.rewrite %root {\n"
+                           + "".join("    " + ln + "\n" for ln in body) + "  }\n}\n")
+    return out
+
+
 def payload_has(p: tuple, name: str) -> bool:
     return any((op[0] == "t" and name == "test.op") or (op[0] == "b" and "arith." + op[1] == name) for op in p)
 
@@ -759,6 +813,8 @@ def pattern_class(pm: Any) -> tuple[str, frozenset, str]:
             if any(u.operation is rw or u.operation.parent_op() is rw for u in o.results[0].uses):
                 unbound = True      # a constant of the match section that only the rewrite uses
             continue
+        if isinstance(o, pdl.AttributeOp) and sum(1 for u in o.output.uses if isinstance(u.operation, pdl.OperationOp) and u.operation.parent_op() is pat) > 1:
+            feats.add("attr-shared")
         if isinstance(o, pdl.AttributeOp):
             if o.value is not None:
                 feats.add("attr=0" if isinstance(o.value, IntegerAttr) and o.value.value.data == 0 else "attr=const")
@@ -970,13 +1026,14 @@ def witness_payload(pm: Any) -> str | None:
 # =====================================================================================================================
 _PAYLOAD_FUNCS: list | None = None     # parsed once in the parent, inherited by the forked workers
 _PAYLOAD_SPECS: list | None = None
+_ATTR_FUNCS: list | None = None       # payloads of the shared-attribute family (shared_attr_payloads)
 _MULTI_FUNCS: list | None = None      # payloads with a two-result definition (multi_result_payloads)
 _N_ALWAYS = 0
 BATCH = 64
 
 
 def _load_payloads(quick: bool) -> None:
-    global _PAYLOAD_FUNCS, _PAYLOAD_SPECS, _N_ALWAYS, _MULTI_FUNCS
+    global _PAYLOAD_FUNCS, _PAYLOAD_SPECS, _N_ALWAYS, _MULTI_FUNCS, _ATTR_FUNCS
     from xdsl.parser import Parser
 
     specs, _N_ALWAYS = payload_set(quick)
@@ -989,7 +1046,10 @@ def _load_payloads(quick: bool) -> None:
     mm = Parser(corpus.fresh_ctx(), text).parse_module()
     mm.verify()
     _MULTI_FUNCS = list(mm.body.ops)
-    for f in _PAYLOAD_FUNCS + _MULTI_FUNCS:
+    am = Parser(corpus.fresh_ctx(), "".join(shared_attr_payloads())).parse_module()
+    am.verify()
+    _ATTR_FUNCS = list(am.body.ops)
+    for f in _PAYLOAD_FUNCS + _MULTI_FUNCS + _ATTR_FUNCS:
         _input_canon(f)
 
 
@@ -1138,25 +1198,27 @@ def _corpus_shard(arg: tuple) -> Stats:
 
 
 # =====================================================================================================================
-def _multi_shard(arg: tuple) -> Stats:
-    lo, hi, seed = arg
+def _family_shard(arg: tuple) -> Stats:
+    """the small hand-shaped families: every pattern of the family x every payload of the family"""
+    fam, lo, hi, seed = arg
     st = Stats()
-    assert _MULTI_FUNCS is not None
-    for pi, text in enumerate(multi_result_patterns()[lo:hi]):
+    patterns, funcs = {"multi": (multi_result_patterns, _MULTI_FUNCS), "attr": (shared_attr_patterns, _ATTR_FUNCS)}[fam]
+    assert funcs is not None
+    for pi, text in enumerate(patterns()[lo:hi]):
         st.transitions += 1
         comp = Compiled(text, allow_unregistered=False)
         cls = pattern_class(comp.pattern_module)
         st.outcomes["pattern-class:" + class_label(cls)] += 1
         if comp.err is not None:
             st.outcomes[f"conversion-{comp.err[0]}"] += 1
-        check_pairs(st, comp, cls, _MULTI_FUNCS, lambda i, text=text: {"pattern": text, "multi_result_payload_index": i})
+        check_pairs(st, comp, cls, funcs, lambda i, text=text: {"pattern": text, "family": fam, "family_payload_index": i})
         if (lo + pi + seed) % 11 == 0:
             st.sample({"pattern": text, "class": class_label(cls)})
     return st
 
 
 def _shard(task: tuple) -> Stats:
-    return {"corpus": _corpus_shard, "gen": _gen_shard, "multi": _multi_shard}[task[0]](task[1:])
+    return {"corpus": _corpus_shard, "gen": _gen_shard, "family": _family_shard}[task[0]](task[1:])
 
 
 def _minimise_signatures(stats: list[Stats]) -> None:
@@ -1209,16 +1271,22 @@ def run(ctx: Any) -> None:
     # completion order, so witnesses and samples do not depend on scheduling
     ctasks = [("corpus", i, cps[i:i + 2], not quick, ctx.seed) for i in range(0, len(cps), 2)]
     nm = len(multi_result_patterns())
-    mtasks = [("multi", lo, min(lo + 3, nm), ctx.seed) for lo in range(0, nm, 3)]
-    rank = {"gen": 0, "multi": 1, "corpus": 2}
+    na = len(shared_attr_patterns())
+    mtasks = [("family", "multi", lo, min(lo + 3, nm), ctx.seed) for lo in range(0, nm, 3)]
+    mtasks += [("family", "attr", lo, min(lo + 3, na), ctx.seed) for lo in range(0, na, 3)]
+    rank = {"gen": 0, "family": 1, "corpus": 2}
     res = sorted(pmap(_shard, ctasks + mtasks + [("gen",) + t for t in tasks]),
-                 key=lambda r: (rank[r[0][0]], r[0][2] if r[0][0] == "gen" else r[0][1]))
+                 key=lambda r: (rank[r[0][0]], r[0][1] if r[0][0] == "family" else "", r[0][2] if r[0][0] != "corpus" else r[0][1]))
     stats = [pre] + [st for _, st in res]
     _minimise_signatures(stats)
     for st in stats:
         ctx.merge(st)
     ctx.bounds = {
         "generated_patterns": len(pats), "corpus_patterns": len(cps), "payloads": len(_PAYLOAD_FUNCS),
+        "shared_attribute_family": {"patterns": na, "payloads": len(_ATTR_FUNCS or []),
+                                    "what": "one pdl.attribute value (constant 0 / constant 1 / unconstrained / typed-only) in two attribute "
+                                            "slots (two names of the root; root + operand-defining op); payloads: every combination "
+                                            "of slot values {0:i32, 1:i32, 1:i64, missing}, consumer wired to the definition or not"},
         "multi_result_family": {"patterns": nm, "payloads": len(_MULTI_FUNCS or []),
                                 "what": "pdl.result k of a two-result definition, k in {0,1}, consumers use result 0 / 1 / both in either order; "
                                         "payloads: one two-result test.op + 1-2 consumers, all wirings"},
